@@ -134,6 +134,12 @@ def gen_rtte(P):
                         ns = r.randrange(0, 400_000_000)
                     ops.append(f"rtte sample {ns}")
             cases.append(ops)
+        for i in range(P.scale(tier, 20, 400)):
+            # a constant RTT for long enough that the estimator stops moving, then timeouts, then the same RTT again
+            ns = r.choice([0, 1, 1000, 1_000_000, 40_000_000, 250_000_000, 3_000_000_000])
+            ops = ["rtte new"] + [f"rtte sample {ns}"] * r.choice([3, 40, 90, 130])
+            ops += ["rtte timeout"] * r.randrange(1, 5) + [f"rtte sample {ns}"] * r.randrange(1, 3)
+            cases.append(ops)
         return cases
     return gen
 
@@ -168,6 +174,24 @@ def oracle_rtte(P):
                 if not (min(samples) <= rtt <= max(samples)):
                     hits.append({"sig": {"oracle": "rtte", "what": "srtt_range"}, "text": f"SRTT {rtt} outside samples [{min(samples)},{max(samples)}]"})
             prev = rto
+        # "returns to the sample-derived value on the next sample": the same samples without the timeouts in between
+        # must give the same RTO after every sample (a timeout changes nothing but the RTO itself)
+        if not hits and any(op == "rtte timeout" for op in case) and case and case[0] == "rtte new":
+            import subprocess
+            from gens.vsock import HBIN
+            plain = [op for op in case if op != "rtte timeout"]
+            try:
+                p = subprocess.run([HBIN], input="\n".join(plain) + "\n", capture_output=True, text=True, timeout=60)
+                out2 = p.stdout.split("\n")[:len(plain)]
+                ref = [parse_rtte(o)[0] for op, o in zip(plain, out2) if op.startswith("rtte sample")]
+                got = [(op, parse_rtte(o)[0]) for op, o in zip(case, impl) if op.startswith("rtte sample")]
+                for k, ((op, rto), want) in enumerate(zip(got, ref)):
+                    if rto != want:
+                        hits.append({"sig": {"oracle": "rtte", "what": "backoff_not_undone_by_sample"},
+                                     "text": f"sample #{k + 1} `{op}`: RTO {rto} ns, but the same samples without the timeouts in between give {want} ns: the sample did not return the RTO to the sample-derived value"})
+                        break
+            except Exception:
+                pass
         return hits[:3]
     return orc
 
